@@ -77,7 +77,31 @@ func c10ExtendedCfg(dir string) (string, error) {
 	}
 	extra["name"] = "NOIV-1-key-cbcs"
 	extra["cpixFile"] = "cpix_noiv_cbcs.xml"
-	cfg["packages"] = append(pk, extra)
+	pk = append(pk, extra)
+	// two more packages that use the SAME key id and key as the one-key package: one with another
+	// explicitIV, one with the cenc scheme (one key offered per DRM vendor / per scheme). The init
+	// segment and the ciphertext of each must still agree, whatever was asked of this server before.
+	otherIV := bytes.Replace(src, []byte(`explicitIV="ASNFZ4mrze8BI0VniavN7w=="`), []byte(`explicitIV="/ty6mHZUMhD+3LqYdlQyEA=="`), 1)
+	asCenc := bytes.Replace(src, []byte(`commonEncryptionScheme="cbcs"`), []byte(`commonEncryptionScheme="cenc"`), 1)
+	if bytes.Equal(otherIV, src) || bytes.Equal(asCenc, src) {
+		return "", fmt.Errorf("cpix_1key_cbcs_test.xml has not the expected explicitIV / scheme attributes")
+	}
+	for _, x := range []struct {
+		name, file string
+		data       []byte
+	}{{"SAMEKEY-otheriv-cbcs", "cpix_samekey_otheriv.xml", otherIV}, {"SAMEKEY-cenc", "cpix_samekey_cenc.xml", asCenc}} {
+		if err := os.WriteFile(filepath.Join(dir, x.file), x.data, 0o644); err != nil {
+			return "", err
+		}
+		e := map[string]any{}
+		for k, v := range first {
+			e[k] = v
+		}
+		e["name"] = x.name
+		e["cpixFile"] = x.file
+		pk = append(pk, e)
+	}
+	cfg["packages"] = pk
 	out, _ := json.Marshal(cfg)
 	path := filepath.Join(dir, "drm_config_ext.json")
 	return path, os.WriteFile(path, out, 0o644)
@@ -368,7 +392,7 @@ func c10Run(rep *vh.Report, srv *Server, a *vref.VAsset, asset, d, mode string, 
 			viol("C10.a", "kid-mismatch:"+r.Kind, fmt.Sprintf("MPD default_KID %q, init tenc default_KID %q", kidOf[id], ii.TencKID), iu)
 		}
 		wantScheme := "cbcs"
-		if d == "eccp_cenc" {
+		if d == "eccp_cenc" || d == "drm_SAMEKEY-cenc" {
 			wantScheme = "cenc"
 		}
 		if ii.Scheme != wantScheme {
